@@ -68,6 +68,7 @@ var jsonPointable *types.Interface
 // over executor values. Returns a TupleV{any, kind, error}.
 func (e *Engine) getSingle(fr *Frame, c *Ctx, node IfaceV, tok StrV) Value {
 	kindZero := IntV{BV(64, 0)}
+	died := false
 	var res Value
 	add := func(g *Term, v Value) {
 		if g.IsFalse() {
@@ -133,6 +134,9 @@ func (e *Engine) getSingle(fr *Frame, c *Ctx, node IfaceV, tok StrV) Value {
 			recv := a.V
 			// method may have value receiver while we hold pointer (or vice versa): LookupMethod returns wrapper accepting t
 			rv, nc := e.call(fr, cx, fn, []Value{recv, tok}, nil)
+			if nc == nil {
+				died = true
+			}
 			if nc != nil {
 				c.S.Heap = mergeHeaps(e, g, nc.S.Heap, c.S.Heap)
 				tv := rv.(TupleV)
@@ -194,6 +198,9 @@ func (e *Engine) getSingle(fr *Frame, c *Ctx, node IfaceV, tok StrV) Value {
 		}
 	}
 	if res == nil {
+		if died {
+			return nil // every path ended inside JSONLookup (panic or unwinding limit): this path is dead
+		}
 		return errT("unreachable ")
 	}
 	return res
@@ -221,7 +228,8 @@ func mergeHeaps(e *Engine, g *Term, a, b map[int]*Obj) map[int]*Obj {
 func installReflect(e *Engine) {
 	jp := "github.com/go-openapi/jsonpointer."
 	e.intercept[jp+"getSingleImpl"] = func(e *Engine, fr *Frame, c *Ctx, a []Value, _ *ssa.CallCommon) (Value, bool) {
-		return e.getSingle(fr, c, a[0].(IfaceV), a[1].(StrV)), true
+		v := e.getSingle(fr, c, a[0].(IfaceV), a[1].(StrV))
+		return v, v != nil
 	}
 	// errors / fmt
 	e.intercept["fmt.Errorf"] = func(e *Engine, fr *Frame, c *Ctx, a []Value, _ *ssa.CallCommon) (Value, bool) {
